@@ -1,7 +1,7 @@
 (* C13 -- the local steps of a Pandora pipeline as operations on a raster of per-pixel states, built
    from the step models of the other properties (nothing is re-modelled here):
 
-     matching cost (sad / ssd)   Model/MatchingCost.v  sad_volume / ssd_volume           (C02)
+     matching cost               Model/MatchingCost.v  sad / ssd / census / zncc _volume (C02)
        and its validity mask     Model/Criteria.v      after_mc                          (C04)
      winner-takes-all            Model/Wta.v           to_disp                           (C03)
      sub-pixel refinement        Model/Refine.v        loop_pixel                        (C06)
@@ -74,10 +74,25 @@ Definition lay_right (G : cfg) (F : frame pix) : Criteria.layout :=
 Definition all_nan (l : list (option Q)) : bool :=
   forallb (fun o => match o with None => true | Some _ => false end) l.
 
-Definition mc_step (ssd : bool) (E : Criteria.env) (G : cfg) : op pix pix := fun F r c =>
-  let vol := if ssd then MatchingCost.ssd_volume else MatchingCost.sad_volume in
-  let cl := curve (vol (inp_left G F) (g_dmin G) (g_dmax G)) (n_disp G) r c in
-  let cr := curve (vol (inp_right G F) (- g_dmax G) (- g_dmin G)) (n_disp G) r c in
+(* the four measures.  A zncc cell of the model is the exact integer triple (cov, varL, varR) (scaled, C02); the cost
+   cov / sqrt(varL varR) is irrational in general: [zq] is whatever evaluates it from the triple (the float32
+   arithmetic of the code) -- DATA, like the Gaussian kernels of the bilateral filter: the theorems hold for
+   EVERY function [zq] *)
+Inductive mmeas : Type :=
+| MSad | MSsd | MCensus
+| MZncc (zq : Z * Z * Z -> Q).
+
+Definition mc_vol (m : mmeas) (inp : MatchingCost.mc_input) (dmin dmax : Z) : Z -> Z -> Z -> option Q :=
+  match m with
+  | MSad => MatchingCost.sad_volume inp dmin dmax
+  | MSsd => MatchingCost.ssd_volume inp dmin dmax
+  | MCensus => MatchingCost.census_volume inp dmin dmax
+  | MZncc zq => fun r c k => MatchingCost.omap zq (MatchingCost.zncc_volume inp dmin dmax r c k)
+  end.
+
+Definition mc_step (m : mmeas) (E : Criteria.env) (G : cfg) : op pix pix := fun F r c =>
+  let cl := curve (mc_vol m (inp_left G F) (g_dmin G) (g_dmax G)) (n_disp G) r c in
+  let cr := curve (mc_vol m (inp_right G F) (- g_dmax G) (- g_dmin G)) (n_disp G) r c in
   set_mc (f_at F r c) cl cr
     (Criteria.after_mc E (lay_left G F) (fun _ _ => all_nan cl) r c)
     (Criteria.after_mc E (lay_right G F) (fun _ _ => all_nan cr) r c).
@@ -177,7 +192,7 @@ Definition rad_xcheck_margin (G : cfg) : radii :=
 (* ------------------------------------------------------------------ pipelines of the modelled steps *)
 
 Inductive step : Type :=
-| SMc (ssd : bool)
+| SMc (m : mmeas)
 | SWta (mx : bool) (invalid : option Q)
 | SRefine (me : Refine.method) (m : Refine.measure)
 | SMedian (w : Z)
@@ -191,7 +206,7 @@ Record env : Type := mkEnvL {
 
 Definition step_op (V : env) (s : step) : op pix pix :=
   match s with
-  | SMc ssd => mc_step ssd (e_flags V) (e_cfg V)
+  | SMc m => mc_step m (e_flags V) (e_cfg V)
   | SWta mx invalid => wta_step mx (e_bwta V) invalid (e_cfg V)
   | SRefine me m => refine_step (e_refine V) me m (e_cfg V)
   | SMedian w => median_step (e_inv V) (e_bmed V) w
